@@ -177,7 +177,8 @@ KEYWORDS = {"type", "enum", "struct", "fn", "let", "match", "ref", "mod", "use",
 def params_src(d):
     if not d["params"]:
         return ""
-    return "<" + ", ".join(n + (" = " + rust_ty(dflt) if dflt is not None else "") for n, dflt in d["params"]) + ">"
+    pn = [n for n, _ in d["params"]]
+    return "<" + ", ".join(n + (" = " + rust_ty(dflt, pn) if dflt is not None else "") for n, dflt in d["params"]) + ">"
 
 
 def to_rust(d):
